@@ -137,8 +137,7 @@ theorem removed_call_keeps_env (call : CallFn N) (ρ : ExtOracle N) (k : Nat) (e
         have ht := hs t (List.mem_singleton.mpr rfl)
         simp only [wrapStmts]
         cases t <;> simp [isCallOrLocal] at ht
-        · exact Or.inl ⟨_, rfl⟩
-        · exact Or.inr ⟨_, rfl⟩
+        all_goals first | exact Or.inl ⟨_, rfl⟩ | exact Or.inr ⟨_, rfl⟩
       | _ :: _ :: _, _ => exact Or.inr ⟨_, rfl⟩
 
 /-! ## remove_assertions -/
@@ -147,7 +146,7 @@ theorem removed_call_keeps_env (call : CallFn N) (ρ : ExtOracle N) (k : Nat) (e
 value that returns its arguments: the rewritten statement is exactly the original call — the kept
 arguments are evaluated once each, in order (`execS_removed_call`, via `evalDiscard`). Hypotheses:
 dropped arguments are pure; kept arguments are calls under parentheses/casts (otherwise the rule
-emits `local _ = …`, see `underscore_leak`). -/
+emits `do local _ = … end`). -/
 theorem assert_refines (call : CallFn N) (ρ : ExtOracle N) (k : Nat) (env : Env N) (st : St)
     (args : List Expr) (σ : State N)
     (hns : isUsed st.scopes "assert" = false)
@@ -305,6 +304,18 @@ example : (processStatement RemoveAssertions.matcher true
     = .doBlock (.mk [] none) := by rfl
 example : (processExpression RemoveAssertions.matcher true
       (.call (.var "assert") none .tuple [.call (.var "assert") none .tuple [.var "x"]]) {}).1 = .var "x" := by rfl
+-- F36 regression: a kept non-call argument that a LATER kept argument could see through `_` gets its own block
+example : (processStatement RemoveAssertions.matcher true
+      (.callStmt (.call (.var "assert") none .tuple
+        [.field (.var "t") "x", .call (.var "emit") none .tuple [.var "_"]])) {}).1
+    = .doBlock (.mk [.doBlock (.mk [.localAssign .loc [.mk "_" none] [.field (.var "t") "x"]] none),
+                     .callStmt (.call (.var "emit") none .tuple [.var "_"])] none) := by rfl
+-- … and the common shape (no `_` in the arguments) is unchanged
+example : (processStatement RemoveAssertions.matcher true
+      (.callStmt (.call (.var "assert") none .tuple
+        [.field (.var "t") "x", .call (.var "emit") none .tuple [.var "y"]])) {}).1
+    = .doBlock (.mk [.localAssign .loc [.mk "_" none] [.field (.var "t") "x"],
+                     .callStmt (.call (.var "emit") none .tuple [.var "y"])] none) := by rfl
 -- F31 regression: a lone kept non-call argument is wrapped in `do … end`
 example : (processStatement RemoveAssertions.matcher true
       (.callStmt (.call (.var "assert") none .tuple [.field (.var "t") "x"])) {}).1
@@ -377,7 +388,7 @@ theorem assert_stmt_exact_false_by_allocation : ¬ assert_stmt_exact := by
   simp only [processStatementOnce, hm, if_true] at h0
   revert h0
   simp [preserveArgumentsSideEffects, argCandidates, keeps, hasSideEffects, evaluate, evalUnary, LuaValue.isUnknown,
-    expressionsAsStatement, asStatements, pushValue, getInner, isCall, wrapLocal, execS, execB, execSs, evalEs, evalE, Res.bind,
+    expressionsAsStatement, asStatements, usedLaterFlags, usesDiscard, pushValue, getInner, isCall, wrapLocal, execS, execB, execSs, evalEs, evalE, Res.bind,
     lookupVar, lookupAssoc, witnessState, State.getCell, State.getGlobal, callVal, first, unopVal, bindLocals,
     State.allocCell, TName.name]
 
@@ -750,8 +761,8 @@ expression position with exactly one argument (`assert(e)` → `e`, all values k
 every dropped argument is an atom and the kept ones are all calls (`assert(check(x), "msg")` → `check(x)`,
 `assert(ok)` → `do end`, nested calls through the F30 loop) or all non-calls (`assert(x == 1, "msg")` →
 `do local _ = x == 1 end`: the cell the output allocates is matched by nothing on the input side).
-Outside: zero arguments (F18), the `select` form, a MIX of kept calls and non-calls (the `local _` is in
-scope of the later calls, F36), dropped allocations (`assert(x, {})`). `c17.wholeassert` reports the two hypotheses per generated program. -/
+Outside: zero arguments (F18), the `select` form, a MIX of kept calls and non-calls (a sequence inside one
+`do` block: no link yet), kept non-calls mentioning `_`, dropped allocations (`assert(x, {})`). `c17.wholeassert` reports the two hypotheses per generated program. -/
 
 open WholeAssert Demo.DropAssert in
 theorem assert_refines_whole (b : Block) (hb : NoRefB [.wat "assert"] b)
